@@ -195,6 +195,11 @@ def run_case(case):
     try:
         cols, lens = columns(G, mode, cyc, case["starts"], case["ends"])
         width = ref.cover_min([{k: 1 for k in c} for c in cols], required)
+        if cyc:
+            # the covering number itself is computed exactly on the SCC multigraph (inside an SCC one walk can cover everything, with
+            # however many repetitions it takes); the bounded walk columns only serve the witness comparison below
+            S_, T_ = st_sets(G, case["starts"], case["ends"])
+            width = ref.walk_cover_width(G, S_, T_, ignore=ignored) if mode == "edge" else ref.walk_cover_width(G, S_, T_, required_nodes=required)
     except ref.RefTimeout:
         return {"viol": [], "obs": {"c08.ref_timeout": 1}, "nontrivial": False}
     if width is None or width > 4:
